@@ -88,6 +88,10 @@ var lapackArgs = args.Options{
 		"Iparmq.ihi":   "environment enquiry: every integer is legal",
 		"Iparmq.lwork": "environment enquiry: unused by design (kept for signature compatibility)",
 	},
+	OptionalExempt: map[string]string{
+		"Dtrevc3.vr": "the right-eigenvector section is skipped by `goto leftev` when side == EVLeft, which is exactly !rightv",
+		"Dtrevc3.vl": "the left-eigenvector section is preceded by `if side == lapack.EVRight { return m }`, which is exactly !leftv",
+	},
 	LenExempt: map[string]string{
 		"Dlascl.a":         "length check and uses are guarded by the same switch on kind (correlated branches); other kinds panic before",
 		"Dtrevc3.selected": "length check and uses are both guarded by howmny == lapack.EVSelected (correlated branches)",
